@@ -51,6 +51,19 @@ pub fn judge(case: &FaultCase, run: &FaultRun) -> Outcome {
 			return Outcome::fail(if n == 0 { "C07:post-operation-missing" } else { "C07:post-operation-duplicate" }, format!("{n} post-operation runs for one attempt; {d}\n{}", run.stderr_tail));
 		}
 	}
+	// a hook listed for storage events AND post-operation runs as post-operation hook like any other: once per attempt
+	// (not when the recorder listed before it is planned to fail: a hard failure ends the event)
+	if case.mixed_hooks && !case.hook_faults.iter().any(|(h, b)| h == "rec-post" && b != "exit:0") {
+		let mixed: Vec<u64> = run.records.iter().filter(|r| r.hook_id.starts_with("mixed-post:") && r.arg("is_success").map(|s| !s.is_empty()).unwrap_or(false)).map(|r| r.t_start).collect();
+		for (k, p) in posts.iter().enumerate() {
+			// the recorder listed before it delimits the attempt: the mixed hook runs right after it, before the next attempt's first request
+			let hi = dirs.iter().find(|t| **t > *p).cloned().unwrap_or(u64::MAX);
+			let n = mixed.iter().filter(|t| **t > *p && **t < hi).count();
+			if n != 1 && k + 1 < posts.len() {
+				return Outcome::fail(if n == 0 { "C07:post-operation-missing" } else { "C07:post-operation-duplicate" }, format!("attempt {k}: the hook of type [file-post-create, file-post-edit, post-operation] ran {n} times as post-operation hook; {d}"));
+			}
+		}
+	}
 	let mut failed_late = false;
 	let mut lo = 0u64;
 	for (k, a) in run.attempts.iter().enumerate() {
@@ -135,7 +148,7 @@ fn single_cases(tier: Tier) -> Vec<FaultCase> {
 				Tier::Quick => vec![(i % 2 == 0, 1 + (i % 3 == 0) as usize)],
 				Tier::Thorough => vec![(false, 1), (true, 1), (i % 2 == 0, 3)],
 			};
-			variants.into_iter().map(move |(pp, attempts)| FaultCase { faults: vec![f.clone()], previous_pair: pp, kp_reuse: false, attempts, nonce_on_get: false, hook_faults: vec![], file_hooks: false, retry_after: None, processing: false }).collect::<Vec<_>>()
+			variants.into_iter().map(move |(pp, attempts)| FaultCase { faults: vec![f.clone()], previous_pair: pp, kp_reuse: false, attempts, nonce_on_get: false, hook_faults: vec![], file_hooks: false, retry_after: None, processing: false, mixed_hooks: false }).collect::<Vec<_>>()
 		})
 		.collect()
 }
@@ -146,7 +159,7 @@ fn hook_cases() -> Vec<FaultCase> {
 	for h in hooks {
 		for b in ["exit:1", "exit:2", "exit:126", "exit:255", "kill"] {
 			for pp in [false, true] {
-				out.push(FaultCase { faults: vec![], previous_pair: pp, kp_reuse: false, attempts: 2, nonce_on_get: false, hook_faults: vec![(h.to_string(), b.to_string())], file_hooks: true, retry_after: None, processing: false });
+				out.push(FaultCase { faults: vec![], previous_pair: pp, kp_reuse: false, attempts: 2, nonce_on_get: false, hook_faults: vec![(h.to_string(), b.to_string())], file_hooks: true, retry_after: None, processing: false, mixed_hooks: pp });
 			}
 		}
 	}
@@ -403,14 +416,15 @@ fn exec_pause(case: &PauseCase) -> Outcome {
 }
 
 pub fn multi_attempt_strategy() -> impl Strategy<Value = FaultCase> {
-	super::c03::multi_fault_strategy(4).prop_map(|mut c| {
+	(super::c03::multi_fault_strategy(4), any::<bool>()).prop_map(|(mut c, mixed)| {
 		c.attempts = c.attempts.max(2);
+		c.mixed_hooks = mixed;
 		c
 	})
 }
 
 pub fn run(ctx: &Ctx, rep: &mut Report) {
-	rep.rule = "single: the exhaustive (position x action) fault matrix of a 2-identifier issuance (see C03), 1..3 consecutive attempts; hooks: each hook of the certificate and of the account x exit behaviour {1,2,126,255,SIGKILL} x {previous pair, none}; plans: random plans of 2..5 faults over 2..4 attempts in one process; multi: 2..6 certificates sharing or not account and endpoint, a random non-empty proper subset failing permanently; pause: directory/account/order-level faults against the build WITHOUT the hooks (shipped waits), plus failed attempts that themselves last 61.5 s (thorough: also 11 s and 125 s) because the CA answers slowly. Oracle: daemon alive after every attempt; every attempt ends (120 s watchdog vs 0.2 s typical); exactly one post-operation run per attempt (attempts delimited by directory requests in the CA log); is_success=true => the CA served the certificate in that attempt and both files hold it and its key; CA delivered intact and no hook failed => true; failure => non-empty status text; hard hook failure => false; every fault-free certificate issued while the others keep failing and are retried; no request of the next attempt within 1 s after a failed attempt ended. Non-trivial = an attempt failed after at least one successful non-directory request, or several certificates with one failing, or a pause case.".into();
+	rep.rule = "single: the exhaustive (position x action) fault matrix of a 2-identifier issuance (see C03), 1..3 consecutive attempts; hooks: each hook of the certificate and of the account x exit behaviour {1,2,126,255,SIGKILL} x {previous pair, none}; plans: random plans of 2..5 faults over 2..4 attempts in one process; multi: 2..6 certificates sharing or not account and endpoint, a random non-empty proper subset failing permanently; pause: directory/account/order-level faults against the build WITHOUT the hooks (shipped waits), plus failed attempts that themselves last 61.5 s (thorough: also 11 s and 125 s) because the CA answers slowly. Oracle: daemon alive after every attempt; every attempt ends (120 s watchdog vs 0.2 s typical); exactly one post-operation run per attempt (attempts delimited by directory requests in the CA log), also for a hook whose type list mixes file-post-create / file-post-edit with post-operation; is_success=true => the CA served the certificate in that attempt and both files hold it and its key; CA delivered intact and no hook failed => true; failure => non-empty status text; hard hook failure => false; every fault-free certificate issued while the others keep failing and are retried; no request of the next attempt within 1 s after a failed attempt ended. Non-trivial = an attempt failed after at least one successful non-directory request, or several certificates with one failing, or a pause case.".into();
 	rep.assume("pause measured as (arrival of the next request at the CA) - (exit of the post-operation hook), a sound lower bound of the true gap");
 	run_replays::<FaultCase>(ctx, rep, "single", &exec);
 	run_replays::<FaultCase>(ctx, rep, "hooks", &exec);
